@@ -65,6 +65,8 @@ LF_HEADER = ("From RN Require Import Base.Res Codec.Varint Codec.BufReader Codec
 def coq_lop(op):
     k = op[0]
     if k == "w":
+        if op[3] > 5000:
+            return "LW %d %d (N.to_nat %d) %d" % (op[1], op[2], op[3], op[4])
         return "LW %d %d %d%%nat %d" % (op[1], op[2], op[3], op[4])
     if k == "s":
         return "LS %d" % op[1]
@@ -251,6 +253,8 @@ class Hist:
         self.lens = []          # frame length of every stored record
         self.term = max(self.pre, 1)
         self.full = False
+        self.budget = 60000      # bytes of record data per case: keeps the model evaluation (vm_compute) fast
+        self.written = 0
 
     @property
     def end(self):
@@ -266,6 +270,9 @@ class Hist:
                 self.term += 1
             term = self.term
         idx = self.end if index is None else index
+        if self.written + vlen > self.budget:
+            vlen = min(vlen, 3)
+        self.written += vlen + 8
         self.ops.append(["w", idx, term, vlen, self.rng.randrange(1, 1 << 30)])
         if index is None and not self.full:
             self.lens.append(frame_len(idx, term, vlen))
@@ -534,3 +541,28 @@ def gen_random(rng, n, max_ops):
         h.r(h.start, h.end + 1)
         cases.append(h.case("random-" + style))
     return cases
+
+
+def gen_growth(rng):
+    """the file grows beyond its initial 1 MiB (set_len path of write): compared with the model without a
+    reopen (the model's chunked scan over > 1 MiB is slow); the reopen variants are judged by the oracle only"""
+    model_cases, impl_cases = [], []
+    h = Hist(rng, start=1)
+    h.budget = 1 << 30
+    h.w(1050000).w(7).i().r(1, 3).r(2, 3).w(300).check()
+    model_cases.append(h.case("growth-one-big-record"))
+    for big in (1050000, 300000, 17000):
+        h = Hist(rng, start=rng.choice([0, 1, 500]))
+        h.budget = 1 << 30
+        n = {1050000: 3, 300000: 9, 17000: 2 * INTERVAL + 9}[big]
+        for _ in range(n):
+            h.w(big + rng.randrange(0, 50))
+        h.check().reopen_check(h.start + INTERVAL)
+        cut = h.start + rng.choice([1, n // 2, n - 1])
+        h.s(cut).check(cut).reopen_check(cut)
+        for _ in range(4):
+            h.w(big // 2 + rng.randrange(0, 9))
+        h.reopen_check(cut)
+        h.r(h.start, h.end + 1)
+        impl_cases.append(h.case("growth-%d" % big))
+    return model_cases, impl_cases
